@@ -167,6 +167,10 @@ fn check(property: &str, tier: &str, seed: u64, threads: usize, runs: Option<usi
                 "C01" => (1500, 60_000),
                 "C16" => (1500, 80_000),
                 "C11" => (6000, 150_000),
+                // (the rarest structure a seeded change needed - a third-party block naming a key,
+                // then a first-party block introducing another one, then a round trip that
+                // matters to a decision - turns up once in ~3000 runs)
+                "C04" => (20_000, 400_000),
                 "C13" => (2000, 100_000),
                 _ => (3000, 200_000),
             };
